@@ -163,6 +163,12 @@ def check(ctx, rep):
             rule, why = "D-INDEX-TYPE", "the index is a widening cast of a value whose type cannot reach the constant length of the array"
         if rule is None and kind == "assert" and s["msg"] == "Overflow" and const_arith_is_safe(prog, s):
             rule, why = "D-CONST", "arithmetic on two constants that does not overflow"
+        if rule is None and why is None and (kind == "index" or (kind == "assert" and s["msg"] == "BoundsCheck")) and not fam_of.get(owner):
+            # an index / slice expression in a function no table covers: whether the index is in range is a property of
+            # values that no rule here decides; reported as undecided, not as a violation (hand-written scanning code
+            # is full of such sites and is usually right)
+            rep.inconc("INVENTORY: index site in %s is not covered by any table (%s)" % (owner, s["detail"][:80]), where)
+            continue
         if rule is None:
             rep.fail("INVENTORY", "%s" % site_key(s), "undischarged panic site: %s %s%s" % (
                 kind, s["detail"], (" — " + why) if why else ""), where=where)
@@ -314,12 +320,30 @@ def small_add_on_size_is_safe(prog, s):
 
 
 def version_component_plus_one(prog, s):
-    """`x.field + 1` where x is a local of type Version (or a reference to one)"""
+    """`x.field + 1` where x is a local of type Version (or a reference to one) — directly or through a temporary that
+    holds a copy of the field"""
+    body = prog.bodies[s["owner"]]
+
+    def is_version(l):
+        return prog.ty_str(body["locals"][l]).lstrip("&").replace("mut ", "") == "Version"
     m = re.search(r"Overflow\(Add, (?:copy|move) \((?:\*)?_(\d+)\.(\d+): u64\), const 1_u64\)", s["detail"])
+    if m:
+        return is_version(int(m.group(1)))
+    m = re.search(r"Overflow\(Add, (?:copy|move) _(\d+), const 1_u64\)", s["detail"])
     if not m:
         return False
-    body = prog.bodies[s["owner"]]
-    return prog.ty_str(body["locals"][int(m.group(1))]).lstrip("&").replace("mut ", "") == "Version"
+    tmp = int(m.group(1))
+    defs = [st["rv"] for bb in body["blocks"] for st in bb["stmts"]
+            if st["k"] == "assign" and not st["place"]["p"] and st["place"]["l"] == tmp]
+    if len(defs) != 1 or defs[0].get("k") != "use":
+        return False
+    pl = defs[0]["op"].get("copy") or defs[0]["op"].get("move")
+    if not pl or not pl["p"] or pl["p"][-1][0] != "field":
+        return False
+    if any(pe[0] not in ("deref", "field") for pe in pl["p"]):
+        return False
+    # the place is `(*…base).field`: base (after derefs) must be a Version and the field one of its u64 components
+    return is_version(pl["l"]) and len([pe for pe in pl["p"] if pe[0] == "field"]) == 1
 
 
 _LOC = {}
@@ -556,7 +580,9 @@ def entry_points(prog, rep):
     fams = []
     from ..report import coverage
     partial = E.stream_is_partial(prog)
-    for key in E_ENTRIES:
+    keys = list(E_ENTRIES) + [k for k in ("<Version as std::str::FromStr>::from_str", "<range::Range as std::str::FromStr>::from_str")
+                              if prog.has_body(k)]
+    for key in keys:
         if not prog.has_body(key):
             out[key] = "missing"
             continue
@@ -600,7 +626,24 @@ def progress(rep, prog):
     g, problems = gram.extract(prog)
     for k, v in problems.items():
         rep.inconc("grammar extraction of %s: %s" % (k, v))
+    def unknown_refs(p, seen=()):
+        p0 = gram.strip(p)
+        if p0.kind == "ref":
+            if p0.extra not in g:
+                return [p0.extra]
+            if p0.extra in seen:
+                return []
+            return unknown_refs(g[p0.extra], seen + (p0.extra,))
+        out = []
+        for a_ in p0.args:
+            if isinstance(a_, gram.P):
+                out += unknown_refs(a_, seen)
+        return out
     for fn, comb, role, arg, node in gram.repetitions(g):
+        missing = unknown_refs(arg)
+        if missing:
+            rep.inconc("PROGRESS: the %s of %s in %s refers to %s, whose grammar was not extracted" % (role, comb, fn, missing[0]))
+            continue
         if gram.nullable(g, arg):
             rep.fail("PROGRESS", "%s|PROGRESS|%s %s nullable" % (fn, comb, role),
                      "the %s of %s in %s can match the empty string: %s (winnow asserts progress and panics under debug "
@@ -623,7 +666,7 @@ def termination(rep, prog):
     for key, body in sorted(prog.bodies.items()):
         comps = flow.cfg_sccs(body)
         n += len(comps)
-        bad = flow.unbounded_loops(body)
+        bad = flow.unbounded_loops(body, prog, key)
         for comp in bad:
             sp = body["blocks"][comp[0]]["term"]["span"]
             rep.fail("BOUNDED-LOOPS", "%s|BOUNDED-LOOPS|loop" % key, "loop without a collection iterator driving it (blocks %s)" % comp,
